@@ -624,9 +624,12 @@ func (e *Evaluator) evalBinaryExpr(expr *ExprBinary) (*Cell, error) {
 		if member.Value.Tag == ValueNativeFn {
 			// methods live in prototype cells shared by every value of the kind:
 			// bind the receiver in a copy, so that a lookup nested in the
-			// arguments (a.push(b.push(1))) cannot overwrite it
+			// arguments (a.push(b.push(1))) cannot overwrite it. The receiver is
+			// the value the location holds now: an argument that reassigns the
+			// location (a.push(a = 1)) does not change what the method is applied to
+			receiver := left.Value
 			bound := NewCell(member.Value)
-			bound.Value.Binding = &left.Value
+			bound.Value.Binding = &receiver
 			return bound, nil
 		}
 		member.Value.Binding = &left.Value
